@@ -34,9 +34,9 @@ EXTENDS PoolClauses, Integers, TLC, Json, IOUtils
 
 CONSTANT Threads
 
-VARIABLES i, own, ofirst, owners, mpeak, ids, pend, expFrees, nviol
+VARIABLES i, own, ofirst, owners, mpeak, ids, pend, expFrees, nviol, lids, on, lch
 
-cvars == <<i, own, ofirst, owners, mpeak, ids, pend, expFrees, nviol>>
+cvars == <<i, own, ofirst, owners, mpeak, ids, pend, expFrees, nviol, lids, on, lch>>
 
 Trace == ndJsonDeserialize(IOEnv.TRACE)
 N     == Len(Trace)
@@ -49,20 +49,23 @@ NoDup(s)         == \A j, k \in DOMAIN s : j # k => s[j] # s[k]
 LedgerClean(l)   == l.dfree = 0 /\ l.bfree = 0
 
 Fresh == /\ own' = [t \in Threads |-> NoArena] /\ ofirst' = [t \in Threads |-> 0] /\ owners' = {} /\ mpeak' = 0
-         /\ ids' = {} /\ pend' = [t \in Threads |-> NoArena] /\ expFrees' = 0
+         /\ ids' = {} /\ pend' = [t \in Threads |-> NoArena] /\ expFrees' = 0 /\ lids' = {}
+         /\ on' = [t \in Threads |-> 0] /\ lch' = <<>>
 
 CInit == /\ i = 1 /\ own = [t \in Threads |-> NoArena] /\ ofirst = [t \in Threads |-> 0] /\ owners = {} /\ mpeak = 0
-         /\ ids = {} /\ pend = [t \in Threads |-> NoArena] /\ expFrees = 0 /\ nviol = 0
+         /\ ids = {} /\ pend = [t \in Threads |-> NoArena] /\ expFrees = 0 /\ nviol = 0 /\ lids = {}
+         /\ on = [t \in Threads |-> 0] /\ lch = <<>>
 
 \* report: set of violated clauses at this event
 Report(bad) == /\ (IF bad = {} THEN TRUE ELSE PrintT(<<"VIOLATION", bad, i>>))
                /\ nviol' = nviol + Cardinality(bad)
 
-CoversAll(obsSeq) == {obsSeq[j].a : j \in DOMAIN obsSeq} = ids /\ NoDup([j \in DOMAIN obsSeq |-> obsSeq[j].a])
+\* every arena ever handed out, except those leaked with mem::forget (they are never returned to the pool)
+CoversAll(obsSeq) == {obsSeq[j].a : j \in DOMAIN obsSeq} = ids \ lids /\ NoDup([j \in DOMAIN obsSeq |-> obsSeq[j].a])
 
 ResetOK ==
     /\ Len(ev.before) = Len(ev.after) /\ Len(ev.twins) = Len(ev.after) /\ CoversAll(ev.after)
-    /\ LedgerClean(ev.ledger)
+    /\ LedgerClean(ev.ledger) /\ ev.damaged = <<>>
     /\ \A j \in DOMAIN ev.after : LET b == ev.before[j]  a == ev.after[j] IN
           /\ a.a = b.a /\ a.n = 1 /\ a.al = 0
           /\ TwinAgrees(a, ev.twins[j])
@@ -71,17 +74,23 @@ ResetOK ==
 
 ResetToStartOK ==
     /\ Len(ev.before) = Len(ev.after) /\ Len(ev.twins) = Len(ev.after) /\ CoversAll(ev.after)
-    /\ LedgerClean(ev.ledger)
+    /\ LedgerClean(ev.ledger) /\ ev.damaged = <<>>
     /\ \A j \in DOMAIN ev.after : LET b == ev.before[j]  a == ev.after[j] IN
           /\ a.a = b.a /\ a.n = b.n /\ a.sz = b.sz /\ a.al = 0
           /\ TwinAgrees(a, ev.twins[j])
           /\ ev.ledger.frees[j] = ev.ledger_before.frees[j]
           /\ ev.ledger.allocs[j] = ev.ledger_before.allocs[j]
 
+RECURSIVE SumTo(_, _)
+SumTo(f, n) == IF n = 0 THEN 0 ELSE f[n] + SumTo(f, n - 1)
+
+\* every arena is released completely and exactly once, except the leaked ones, which are not released at all
 DropOK ==
-    /\ SeqSet(ev.idle) = ids /\ NoDup(ev.idle)
-    /\ LedgerClean(ev.ledger) /\ ev.ledger.outstanding = 0
-    /\ \A j \in 1..ev.ever : ev.ledger_all.frees[j] = ev.ledger_all.allocs[j]
+    /\ SeqSet(ev.idle) = ids \ lids /\ NoDup(ev.idle)
+    /\ LedgerClean(ev.ledger) /\ ev.damaged = <<>>
+    /\ \A j \in 1..ev.ever : IF j \in lids THEN ev.ledger_all.allocs[j] - ev.ledger_all.frees[j] = lch[j]
+                                           ELSE ev.ledger_all.frees[j] = ev.ledger_all.allocs[j]
+    /\ ev.ledger.outstanding = SumTo([j \in 1..ev.ever |-> IF j \in lids THEN lch[j] ELSE 0], ev.ever)
 
 Step ==
     LET k == ev.ev  t == ev.t IN
@@ -89,22 +98,22 @@ Step ==
             /\ Fresh /\ Report({})
       [] k = "get_cs" ->
             /\ owners' = owners \cup {t}
-            /\ mpeak' = Max(mpeak, Cardinality(owners \cup {t}))
-            /\ UNCHANGED <<own, ofirst, ids, pend, expFrees>> /\ Report({})
+            /\ mpeak' = Max(mpeak, Cardinality(owners \cup {t}) + Cardinality(lids))   \* a forgotten guard stays live
+            /\ UNCHANGED <<own, ofirst, ids, pend, expFrees, lids, on, lch>> /\ Report({})
       [] k = "create" ->
             /\ pend' = [pend EXCEPT ![t] = ev.arena]
-            /\ UNCHANGED <<own, ofirst, owners, mpeak, ids, expFrees>>
+            /\ UNCHANGED <<own, ofirst, owners, mpeak, ids, expFrees, lids, on, lch>>
             /\ Report(IF ReuseC(Cardinality(ids \cup PendIds(pend) \cup {ev.arena}), mpeak) THEN {} ELSE {"reuse"})
       [] k = "get_fail" ->
             /\ pend' = [pend EXCEPT ![t] = NoArena]
             /\ owners' = owners \ {t}
-            /\ UNCHANGED <<own, ofirst, mpeak, ids, expFrees>> /\ Report({})
+            /\ UNCHANGED <<own, ofirst, mpeak, ids, expFrees, lids, on, lch>> /\ Report({})
       [] k = "get_done" ->
             LET others == [u \in Threads |-> IF u = t THEN NoArena ELSE own[u]]
                 h      == [others EXCEPT ![t] = ev.arena]
                 p2     == [pend EXCEPT ![t] = NoArena]
                 ids2   == ids \cup {ev.arena}
-                excl   == /\ ExclusiveC(h)
+                excl   == /\ ExclusiveC(h) /\ ev.arena \notin lids
                           /\ \A u \in Threads : (u # t /\ own[u] # NoArena) => ofirst[u] # ev.obs.first
                           /\ ev.obs.a = ev.arena
                 reuse  == ReuseC(Cardinality(ids2 \cup PendIds(p2)), mpeak)
@@ -113,38 +122,46 @@ Step ==
             /\ own' = [own EXCEPT ![t] = ev.arena]
             /\ ofirst' = [ofirst EXCEPT ![t] = ev.obs.first]
             /\ pend' = p2 /\ ids' = ids2
-            /\ UNCHANGED <<owners, mpeak, expFrees>>
+            /\ on' = [on EXCEPT ![t] = ev.obs.n]
+            /\ UNCHANGED <<owners, mpeak, expFrees, lids, lch>>
             /\ Report((IF excl THEN {} ELSE {"exclusive"}) \cup (IF reuse THEN {} ELSE {"reuse"})
                       \cup (IF intact THEN {} ELSE {"intact"}))
       [] k = "use" ->
-            /\ UNCHANGED <<own, ofirst, owners, mpeak, ids, pend, expFrees>>
+            /\ on' = [on EXCEPT ![t] = ev.obs.n]
+            /\ UNCHANGED <<own, ofirst, owners, mpeak, ids, pend, expFrees, lids, lch>>
             /\ Report((IF ev.damaged = <<>> THEN {} ELSE {"intact"})
                       \cup (IF ev.arena = own[t] /\ ev.obs.a = ev.arena THEN {} ELSE {"exclusive"}))
       [] k = "drop_cs" ->
             /\ own' = [own EXCEPT ![t] = NoArena] /\ ofirst' = [ofirst EXCEPT ![t] = 0]
             /\ owners' = owners \ {t}
-            /\ UNCHANGED <<mpeak, ids, pend, expFrees>> /\ Report({})
+            /\ UNCHANGED <<mpeak, ids, pend, expFrees, lids, on, lch>> /\ Report({})
+      [] k = "forget" ->       \* mem::forget(guard): the arena is never handed out again, its owner count stays
+            /\ own' = [own EXCEPT ![t] = NoArena] /\ ofirst' = [ofirst EXCEPT ![t] = 0]
+            /\ owners' = owners \ {t}
+            /\ lids' = lids \cup {ev.arena}
+            /\ lch' = [a \in DOMAIN lch \cup {ev.arena} |-> IF a = ev.arena THEN on[t] ELSE lch[a]]   \* its chunks, for ever
+            /\ UNCHANGED <<mpeak, ids, pend, expFrees, on>> /\ Report({})
       [] k = "check" ->
-            /\ UNCHANGED <<own, ofirst, owners, mpeak, ids, pend, expFrees>>
+            /\ UNCHANGED <<own, ofirst, owners, mpeak, ids, pend, expFrees, lids, on, lch>>
             /\ Report((IF ev.damaged = <<>> /\ ev.ledger.total_frees = expFrees /\ LedgerClean(ev.ledger)
                           THEN {} ELSE {"intact"})
-                      \cup (IF NoDup(ev.idle) /\ (owners = {} => SeqSet(ev.idle) \subseteq ids) THEN {} ELSE {"exclusive"})
+                      \cup (IF NoDup(ev.idle) /\ (owners = {} => SeqSet(ev.idle) \subseteq ids \ lids) THEN {} ELSE {"exclusive"})
                       \cup (IF ReuseC(Len(ev.idle), mpeak) /\ ReuseC(Cardinality(ids), mpeak) THEN {} ELSE {"reuse"}))
       [] k = "pool_reset" ->
             /\ expFrees' = ev.ledger.total_frees
-            /\ UNCHANGED <<own, ofirst, owners, mpeak, ids, pend>>
+            /\ UNCHANGED <<own, ofirst, owners, mpeak, ids, pend, lids, on, lch>>
             /\ Report(IF ResetOK THEN {} ELSE {"reset"})
       [] k = "pool_reset_to_start" ->
             /\ expFrees' = ev.ledger.total_frees
-            /\ UNCHANGED <<own, ofirst, owners, mpeak, ids, pend>>
+            /\ UNCHANGED <<own, ofirst, owners, mpeak, ids, pend, lids, on, lch>>
             /\ Report(IF ResetToStartOK THEN {} ELSE {"reset_to_start"})
       [] k = "pool_drop" ->
-            /\ UNCHANGED <<own, ofirst, owners, mpeak, ids, pend, expFrees>>
+            /\ UNCHANGED <<own, ofirst, owners, mpeak, ids, pend, expFrees, lids, on, lch>>
             /\ Report(IF DropOK THEN {} ELSE {"drop"})
       [] k = "panic" ->        \* a get / drop (or an allocation through the guard) panicked instead of returning
-            /\ UNCHANGED <<own, ofirst, owners, mpeak, ids, pend, expFrees>> /\ Report({"returns"})
+            /\ UNCHANGED <<own, ofirst, owners, mpeak, ids, pend, expFrees, lids, on, lch>> /\ Report({"returns"})
       [] OTHER ->
-            /\ UNCHANGED <<own, ofirst, owners, mpeak, ids, pend, expFrees>> /\ Report({})
+            /\ UNCHANGED <<own, ofirst, owners, mpeak, ids, pend, expFrees, lids, on, lch>> /\ Report({})
 
 CNext == i <= N /\ Step /\ i' = i + 1
 
